@@ -44,8 +44,9 @@ def body(ctx, rep, rule, impl, which):
     def want(d):
         # private (non-anchor, non-async) helper methods of the same Framed impl are analysed in place
         return d.startswith(prefix) and not d.endswith(ANCHOR_METHODS) and "{closure" not in d
-    from mirq import inline_calls
-    ib = inline_calls(b, want)
+    from mirq import inline_calls, inline_async
+    ib = inline_async(b, lambda d: d.startswith(prefix) and not d.endswith(ANCHOR_METHODS), depth=3)
+    ib = inline_calls(ib, want)
     if ib is not b:
         rep.notes.append("%s: private helper(s) of %s inlined for path analysis" % (rule, name))
     return ib
